@@ -27,6 +27,8 @@ ASSUMPTIONS = [
     'payloads the statement does not classify (empty payload, blank line inside the payload, two frames on one connection) are '
     'judged only on: at most one handler invocation, connection closed',
     'stall cases use a 0.35 s server timeout; the verdict is "no handler ran and the connection was closed", not a duration',
+    'well-framed splittings run against a 5 s server timeout; a run in which the driver itself paused for more than 40% of it '
+    'between two chunks is repeated, and is inconclusive (no verdict) when that persists',
     'ECONNRESET after the server closed with unread input counts as closed',
 ]
 SHARD_TIMEOUT = {'quick': 900, 'thorough': 3600}
@@ -48,10 +50,19 @@ def handlers_for(hist, delay=None):
     return {'ADT^A01^ADT_A01': (Ok, 'x', 1), 'ADT^A01': (Ok,), 'ORU^R01^ORU_R01': (Other,), 'ERR': (Err,)}
 
 
-def one_connection(drv, hist, chunks, payload, kind, rec, case, sig, nontrivial=True, client_wait=5.0):
-    n0 = len(hist.events)
-    received, ending, alive = drv.run(chunks, client_wait)
-    evs = hist.events[n0:]
+def one_connection(drv, hist, chunks, payload, kind, rec, case, sig, nontrivial=True, client_wait=8.0):
+    for attempt in range(3):
+        n0 = len(hist.events)
+        received, ending, alive = drv.run(chunks, client_wait)
+        evs = hist.events[n0:]
+        if kind != 'framed' or drv.max_gap < 0.4 * drv.timeout:
+            break
+        # the driver itself was descheduled for a good part of the server's read timeout between two chunks: whatever
+        # the server did is no verdict on the splitting (wall-clock hiccup on a loaded machine) - run it again
+        rec.count('connections_rerun_after_slow_driver')
+    else:
+        rec.count('connections_inconclusive_slow_driver')
+        return
     rec.evaluation(sig, nontrivial)
     rec.count('connections')
     rec.count('handler_events_observed', len(evs))
@@ -89,8 +100,14 @@ def run_splits(spec, rec):
 
 
 def random_text(rng, kind):
-    v = rng.choice(['2.3', '2.5', '2.6', '2.8'])
+    v = rng.choice(['2.3', '2.5', '2.6', '2.7', '2.8', '2.8.2'])
     cid = 'c%d' % rng.randrange(10 ** 6)
+    msh2 = '^~\\&'
+    tail = ''
+    if v >= '2.7' and rng.random() < 0.6:
+        msh2 += '#'       # five encoding characters; the header may end at MSH-12 or go on
+    if rng.random() < 0.4:
+        tail = rng.choice(['|', '|1', '||', '|||AL|NE', '||||||UNICODE UTF-8'])
     if kind == 'registered':
         m9 = rng.choice(['ADT^A01^ADT_A01', 'ORU^R01^ORU_R01', 'ADT^A01'])
     elif kind == 'unregistered':
@@ -98,7 +115,7 @@ def random_text(rng, kind):
     else:
         return rng.choice(['HELLO WORLD', 'PID|1||x', 'MS|^~\\&|x', 'msh|^~\\&|A', 'MSH', 'X' * 300,
                            'not hl7 at all\rsecond line'])
-    lines = ['MSH|^~\\&|SND|FAC|RCV|FAC|20200101||%s|%s|P|%s' % (m9, cid, v)]
+    lines = ['MSH|%s|SND|FAC|RCV|FAC|20200101||%s|%s|P|%s%s' % (msh2, m9, cid, v, tail)]
     for i in range(rng.randint(0, 6)):
         name = rng.choice(['PID', 'PV1', 'OBX', 'NK1', 'ZZ1'])
         val = rng.choice(['x', 'Müller^Jörg', '日本語', 'a b c', 'A^B&C~D', 'é', '\U0001F600',
@@ -133,7 +150,8 @@ def run_random_splits(spec, rec):
 def run_faults(spec, rec):
     rng = gen.rng_for(spec['seed'], 'c16-f', spec['part'])
     hist = mllpdrv.History()
-    drv = mllpdrv.PairDriver(handlers_for(hist))
+    # short server timeout: stalls and truncated frames end quickly; every verdict here is "no handler, closed"
+    drv = mllpdrv.PairDriver(handlers_for(hist), timeout=0.35)
     try:
         text = short_text('cF')
         data = mllpdrv.frame(text)
@@ -293,10 +311,14 @@ def run_to_mllp(spec, rec):
             names = [n for n in sorted(msgs) if structref.usable(v, msgs[n]) and structref.msh9_for(v, n)]
             name = rng.choice(names)
             text, _, _ = c01.build_message(rng, v, name, msgs[name], 'random', 2)
-            m = parser.parse_message(text)
             rec.evaluation(('to_mllp', v, name, i))
-            er = m.to_er7()
-            ml = m.to_mllp()
+            try:
+                m = parser.parse_message(text)
+                er = m.to_er7()
+                ml = m.to_mllp()
+            except Exception as e:
+                rec.violation('to_mllp-raised:%s' % type(e).__name__, {'kind': 'to_mllp', 'text': text}, {'exc': repr(e)[:200]})
+                continue
             if ml != MC.SB + er + MC.CR + MC.EB + MC.CR:
                 rec.violation('to_mllp-is-not-SB-er7-CR-EB-CR', {'kind': 'to_mllp', 'text': text}, {'tail': repr(ml[-6:])})
                 continue
